@@ -169,8 +169,8 @@ SPEC_NEXT = r"""
 
 SPEC_BOA = r"""
     ensures
-        (r is Ok) == (slot_after(*old(lhs), rhs, op) is Some), // [C06:op_assign_on_an_element_or_property_fails_exactly_when_the_operator_fails]
-        r is Ok ==> *final(lhs) == slot_after(*old(lhs), rhs, op)->0, // [C06:op_assign_on_an_element_or_property_stores_old_value_op_rhs_and_plain_assign_stores_rhs]
+        (r is Ok) == (slot_after(*old(lhs), rhs, op) is Some), // [C06_C12:op_assign_on_an_element_or_property_fails_exactly_when_the_operator_fails]
+        r is Ok ==> *final(lhs) == slot_after(*old(lhs), rhs, op)->0, // [C06_C12:op_assign_on_an_element_or_property_stores_old_value_op_rhs_and_plain_assign_stores_rhs]
         r is Err ==> *final(lhs) == *old(lhs), // [C06:failed_operator_leaves_the_slot_unchanged]
         r matches Err(e) ==> located(e), // [C17:binding_errors_are_located]
 """
